@@ -87,6 +87,7 @@ pub struct Instance {
     /// the async transport supports gathering writes (TcpStream does)
     pub vectored: bool,
     pub init_unfilled: bool,
+    pub flush_style: u8,
     /// the async transport's flush needs this many extra polls after a write (websocket, TLS)
     pub slow_flush: u8,
     /// compare with the other implementation on histories both can execute
@@ -122,6 +123,7 @@ impl Instance {
             accept_few: false,
             vectored: false,
             init_unfilled: false,
+            flush_style: 0,
             slow_flush: 0,
             differential: false,
         }
